@@ -438,6 +438,17 @@ func runRoCase(x *acCtx, c *acCase) {
 			if c.A.Npad > 0 {
 				opts = append(opts, carv2.ZeroLengthSectionAsEOF(true))
 			}
+			if !ident {
+				// identity CIDs that are not indexed are not subject to the index CID size limit:
+				// the tightest limit that admits every other CID of the archive must change nothing
+				lim := 1
+				for _, id := range c.A.Secs {
+					if q := alphaByID[id].Cid; !isIdentityCid(q) && q.ByteLen() > lim {
+						lim = q.ByteLen()
+					}
+				}
+				opts = append(opts, carv2.MaxIndexCidSize(uint64(lim)))
+			}
 			// supplied index variants: none, or a generated index of either codec over the payload
 			for _, sup := range []string{"none", "sup-sorted", "sup-mh"} {
 				var supIdx index.Index
